@@ -141,6 +141,50 @@ def one_case(cid, pkey, rng):
     return c
 
 
+def helper_case(cid, rng, k):
+    """the matrix-level helpers under the protocols (breed.prot.mate.util) and their duplicates (core.util.mate), called
+    directly; the female and male genotype arrays are the same array, two separate arrays, or two VIEWS of one population
+    array (a female and a male pool sliced from it)"""
+    from pybrops.breed.prot.mate import util as U
+    from pybrops.core.util import mate as D
+    fnname = ["mat_mate", "dense_cross", "mat_dh", "dense_dh"][k % 4]
+    layout = ["same", "separate", "views", "views"][(k // 4) % 4]
+    fn = getattr(U if fnname.startswith("mat_") else D, fnname)
+    n = rng.randrange(2, 7); L = rng.randrange(1, 7); nsel = rng.randrange(1, 6)
+    xcls = [rng.choice([0, 1, 1, 2]) for _ in range(L)]
+    xoprob = np.array([{0: 0.0, 1: rng.choice([0.5, 0.1]), 2: 1.0}[c] for c in xcls])
+    pop = np.empty((2, n, L), dtype="int8")
+    for i in range(n):
+        pop[0, i, :] = 2 * i; pop[1, i, :] = 2 * i + 1
+    g = np.random.default_rng(rng.randrange(2 ** 32)) if k % 2 else np.random.RandomState(rng.randrange(2 ** 32))
+    dh = fnname.endswith("dh")
+    c = {"id": cid, "kind": "helper", "fn": fnname, "layout": layout, "proto": "sx" if dh else "2w", "xo": xcls, "dh": dh, "exc": None,
+         "nself": 0}
+    pop0 = pop.copy()
+    try:
+        if dh:
+            sel = np.array([rng.randrange(n) for _ in range(nsel)])
+            c["xconfig"] = [[int(x)] for x in sel]
+            out = np.asarray(fn(pop, sel, xoprob, g))
+        else:
+            if layout == "same":
+                fg, mg, off = pop, pop, 0
+            elif layout == "separate":
+                fg, mg, off = pop, pop.copy(), 0
+            else:
+                nf = rng.randrange(1, n)
+                fg, mg, off = pop[:, :nf, :], pop[:, nf:, :], nf
+            fsel = np.array([rng.randrange(fg.shape[1]) for _ in range(nsel)]); msel = np.array([rng.randrange(mg.shape[1]) for _ in range(nsel)])
+            c["xconfig"] = [[int(a), int(b) + off] for a, b in zip(fsel, msel)]
+            out = np.asarray(fn(fg, mg, fsel, msel, xoprob, g))
+        c["prog"] = [[out[0, j, :].astype(int).tolist(), out[1, j, :].astype(int).tolist()] for j in range(out.shape[1])] \
+            if out.ndim == 3 and out.shape[0] == 2 else []
+        c["parentsame"] = bool(np.array_equal(pop, pop0))
+    except Exception as e:
+        c.update(exc="%s: %s" % (type(e).__name__, e), prog=[], parentsame=True)
+    return c
+
+
 def bulk_case(cid, pkey, rng):
     """one large mate() call: implementations that process gametes or loci in blocks must be right across block seams"""
     import importlib
@@ -200,8 +244,15 @@ def run(ctx):
     for t in range(n):
         allc.append(one_case(t + 1, keys[t % len(keys)], rng))
     bulk = [bulk_case(len(allc) + 1 + t, keys[t % len(keys)], rng) for t in range(28 if thorough else 14)]
-    verd = cases.validate(ctx, "Mating_Trace", "Mating_Trace.cfg", allc + bulk, "Mating_Trace", chunk=120, procs=14)
-    ctx.traces += len(allc) + len(bulk)
+    helpers = [helper_case(len(allc) + len(bulk) + 1 + t, rng, t) for t in range(192 if thorough else 64)]
+    verd = cases.validate(ctx, "Mating_Trace", "Mating_Trace.cfg", allc + bulk + helpers, "Mating_Trace", chunk=120, procs=14)
+    ctx.traces += len(allc) + len(bulk) + len(helpers)
+    for c in helpers:
+        v = verd[c["id"]]
+        ctx.count(1, repr({k: c[k] for k in ("fn", "layout", "xconfig", "xo")}))
+        if v != "ok":
+            ctx.violation("%s[%s]:%s" % (c["fn"], c["layout"], v), "TLC verdict %s%s (female / male arrays: %s)" % (
+                v, (" (" + c["exc"] + ")") if c["exc"] else "", c["layout"]), {k: c[k] for k in c if k != "prog"} | {"prog_head": c["prog"][:6]})
     for c in bulk:
         v = verd[c["id"]]
         ctx.count(1, repr({k: c[k] for k in ("proto", "xconfig", "nself", "nexp")} | {"nvrnt": len(c["xo"])}))
